@@ -193,6 +193,7 @@ Scenario generate(const std::string& prop, uint64_t seed, const std::string& tie
     long nbLeavesGuess = std::max<long>(1, long(sc.src.size()));
     const long bs[] = {1, 2, 3, 4 + long(r.below(13)), nbLeavesGuess, 1000000};
     sc.blockSize = bs[r.below(6)];
+    if (sc.src.size() + sc.tgt.size() > 200 && sc.blockSize < 3) sc.blockSize = 3 + long(r.below(6));   // keeps the task count of one run in the thousands
     sc.oneGroupPerParent = r.chance(0.35);
     sc.upper = r.chance(0.7) ? (sc.isPeriodic() ? 1 : 2) : long(r.below(uint64_t(sc.height + 1)));
     if (prop == "C12") sc.upper = long(r.below(uint64_t(sc.height + 1)));
